@@ -159,6 +159,7 @@ def mutation_rules(chk, hs):
     import ast
     from ..core import U, atoms, paths_of, positional_params
     from ..hand import is_ctor, ctor_fields
+    from ..handrules import writeback_fallback
     repo = chk.repo
     qb = hs["qbytes"]
     # ---- (a) in-place scale writers vs shared scale objects
@@ -173,9 +174,9 @@ def mutation_rules(chk, hs):
             tparams = [p_ for p_ in positional_params(h.fn)[1:]]
             for p in paths_of(h.fn):
                 if p.end[0] == "return" and is_ctor(p.end[1]):
-                    f = ctor_fields(repo, "QBytesTensor", p.end[1])
+                    f = ctor_fields(repo, "QBytesTensor", p.end[1], raw=True)
                     if f and U(f["scale"]) in [f"{x}._scale" for x in tparams] + [f"{x}[0]._scale" for x in tparams]:
-                        sharers.append(h.name)
+                        sharers.append((h, p.end[2], U(f["scale"])))
                         break
     # the same for payloads: the scalar mul / div handlers wrap their operand's `_data` object with a new scale, and copy_ writes payloads in place
     dwriters, dsharers = [], []
@@ -190,17 +191,34 @@ def mutation_rules(chk, hs):
             tparams = positional_params(h.fn)[1:]
             for p in paths_of(h.fn):
                 if p.end[0] == "return" and is_ctor(p.end[1]):
-                    f = ctor_fields(repo, "QBytesTensor", p.end[1])
+                    f = ctor_fields(repo, "QBytesTensor", p.end[1], raw=True)
                     if f and U(f["data"]) in [f"{x}._data" for x in tparams]:
-                        dsharers.append(h.name)
+                        dsharers.append((h, p.end[2], U(f["data"])))
                         break
-    for h, nd in dwriters:
-        chk.require("C05.R18", f"{h.mi.rel}:{nd.lineno}", not dsharers, f"{h.name} writes a payload in place (`{U(nd)[:50]}`); handlers wrapping their operand's payload object in their result: {sorted(set(dsharers))}", h.name, "in-place payload write meets shared payloads",
-                    "r = q * 2.0; r.copy_(y): q is overwritten too (r and q hold the same `_data` tensor under different scales); q moves by 2.3 .. 3.7 where the float program leaves it unchanged")
     n = len(writers) + len(dwriters)
+    for h, nd in dwriters:
+        chk.ok("C05.R18", f"{h.mi.rel}:{nd.lineno}", f"{h.name} writes a payload in place (`{U(nd)[:50]}`): every handler result must own its payload or be a view of its operand's ({len(dsharers)} handler(s) wrap their operand's payload object)")
+    for h, line, txt in dsharers:
+        n += 1
+        chk.require("C05.R18", f"{h.mi.rel}:{line}", not dwriters, f"{h.name} wraps its operand's payload object `{txt}` in its result under another scale, and {sorted({w.name for w, _ in dwriters})} write(s) payloads in place", h.name, "result shares its operand's payload object",
+                    "r = q * 2.0; r.copy_(y) (or r.add_(1)): q is overwritten too (r and q hold the same `_data` tensor under different scales); q moves by 2.3 .. 3.7 where the float program leaves it unchanged")
+    # one obligation per handler that hands its operand's scale object to its result while some handler writes scales in place.  The aliasing
+    # handlers (views) are told apart: their payload is a view of the operand's, so a shared scale is what keeps both consistent - the
+    # defect there is that a per-tensor scale cannot change for the written part only
+    from ..hand import MOVE_OPS as _MOVES
+    _ALIAS = {"aten.select", "aten.slice", "aten.transpose", "aten.view", "aten.unsqueeze", "aten.permute", "aten.expand", "aten.t", "aten.squeeze", "aten._unsafe_view", "aten.narrow", "aten.unbind", "aten.split", "aten.detach", "aten.alias"}
+    wnames = sorted({h.name for h, _ in writers})
     for h, nd in writers:
-        chk.require("C05.R18", f"{h.mi.rel}:{nd.lineno}", not sharers, f"{h.name} writes a scale in place (`{U(nd)[:50]}`); handlers handing their operand's scale object to their result: {sorted(set(sharers))[:8]}", h.name, "in-place scale write meets shared scales",
-                    "r = -q; r.copy_(p): q is rescaled too (r and q hold the same scale tensor); q[0:2].copy_(p[0:2]) rescales the rows of q that were not written; a model whose forward copies into a module output rewrites that module's output_scale buffer")
+        chk.ok("C05.R18", f"{h.mi.rel}:{nd.lineno}", f"{h.name} writes a scale in place (`{U(nd)[:50]}`): every handler result must own its scale ({len(sharers)} handler(s) examined hand their operand's)")
+    for h, line, txt in sharers:
+        is_view = all(o in _ALIAS for o in h.ops)
+        n += 1
+        if is_view:
+            chk.require("C05.R18", f"{h.mi.rel}:{line}", not writers, f"{h.name} (a view: {sorted(h.ops)[:3]}) shares `{txt}` with its operand, and {wnames} write(s) scales in place", h.name, "write through a per-tensor view rescales the whole operand",
+                        "q[0:2].copy_(p[0:2]) rescales the rows of q that were not written (the view and q hold the same per-tensor scale)")
+        else:
+            chk.require("C05.R18", f"{h.mi.rel}:{line}", not writers, f"{h.name} hands its operand's scale object `{txt}` to its result (a new tensor, not a view), and {wnames} write(s) scales in place", h.name, "result shares its operand's scale object",
+                        "r = -q; r.copy_(p) (or r.add_(1)): q is rescaled too - r and q hold the same scale tensor")
     # ---- (b) layout agreement before the first mutation of copy_
     for h in qb:
         if "aten.copy_" not in h.ops:
@@ -254,8 +272,23 @@ def mutation_rules(chk, hs):
         if disp is None:
             continue
         falls_back = any(isinstance(x, ast.Call) and U(x.func) == "qfallback" for x in ast.walk(disp))
-        tells_mutation = any(isinstance(x, ast.Attribute) and x.attr in ("is_mutable", "is_write", "alias_info") for x in ast.walk(disp)) or \
-            any(isinstance(x, ast.Call) and isinstance(x.func, ast.Attribute) and x.func.attr == "endswith" and x.args and isinstance(x.args[0], ast.Constant) and x.args[0].value == "_" for x in ast.walk(disp))
+        # the mutation test has to govern the fallback: every path that returns qfallback(...) has decided "not mutating" on its way
+        def _is_mut_atom(a: str) -> bool:
+            return any(k in a for k in ("is_mutable", "is_write", "alias_info", ".endswith('_')"))
+        fb_paths = [p_ for p_ in paths_of(disp) if p_.end and p_.end[0] == "return" and isinstance(p_.end[1], ast.Call) and U(p_.end[1].func) == "qfallback"]
+        tells_mutation = bool(fb_paths) and all(any(_is_mut_atom(str(a)) and pol is False for c, t, _ in p_.conds for a, pol in atoms(c, t)) for p_ in fb_paths)
+        # ... and the write-back fallback, where there is one, leaves a quantized destination to the out-of-place fallback on no path
+        for p_ in paths_of(disp):
+            if p_.end and p_.end[0] == "return" and isinstance(p_.end[1], ast.Call):
+                wb = writeback_fallback(repo, U(p_.end[1].func))
+                for kind, hp_ in wb or ():
+                    if kind != "fallback":
+                        continue
+                    plain = any(str(a).startswith("isinstance(") and ("QBytesTensor" in str(a) or "QTensor" in str(a) or "QBitsTensor" in str(a)) and pol is False for c, t, _ in hp_.conds for a, pol in atoms(c, t))
+                    n += 1
+                    chk.require("C05.R18", f"{ci_.mod.rel}:{hp_.end[2]}", plain, f"{U(p_.end[1].func)}: the out-of-place fallback is taken only when the destination is not a quantized tensor (`isinstance` decided false on the path: {plain})",
+                                U(p_.end[1].func), "write-back fallback hands a quantized destination to qfallback",
+                                "q.relu_() / q.zero_() / q.masked_fill_(m, 0): the operand comes back unchanged, no error")
         chk.require("C05.R18", f"{ci_.mod.rel}:{disp.lineno}", not falls_back or tells_mutation, f"{cname}.__torch_dispatch__: an op that writes into its operand is not answered by the out-of-place fallback (fallback: {falls_back}, mutation told apart: {tells_mutation})",
                     f"{cname}.__torch_dispatch__", "in-place op without a handler runs on a temporary",
                     "nn.ReLU(inplace=True) after a module with quantized activations (or q.relu_(), q.mul_(c), q += c, q.masked_fill_(m, 0), q.zero_()): the operand comes back unchanged, no error - Sequential(QLinear, ReLU(inplace=True), QLinear) is off by 0.38 where inplace=False is off by 0.005")
